@@ -37,7 +37,7 @@ abbrev IntV := Option Int
 /-- 10^18 as an `Int` literal (`LegacyOneDec`) -/
 def one : Int := 1000000000000000000
 /-- LegacyDec arithmetic panics above 315 bits -/
-def decBound : Int := 2 ^ 315
+def decBound : Int := 66749594872528440074844428317798503581334516323645399060845050244444366430645017188217565216768   -- 2^315
 
 def nilPanic : Rej := .panic "nil pointer dereference"
 
